@@ -243,6 +243,30 @@ impl Engine for C05 {
                 }
             }
         }
+        // thousands of small records on one key (whatever housekeeping is triggered by a record
+        // COUNT), observed around the round numbers only
+        for variant in 0..2usize {
+            let total = tier.pick(2100usize, 10_100usize);
+            let qkeys = vec![format!("quiet-many-records-{variant}"), "bystander".to_string()];
+            let mut steps = vec![Step { op: Op::Write(WriteSpec::simple(Some(1), 2)), fl: Fl::Sync }];
+            for i in 1..=total {
+                let fl = if (i / 5 + variant) % 2 == 0 { Fl::Sync } else { Fl::Async };
+                let op = if i % 97 == 96 {
+                    Op::Remove { key: 0 }
+                } else if i % 2 == variant {
+                    Op::IdxInsert { key: 0, fields: IdxFields { integrity: Some(a(i % 3)), size: Some(i), time: Some((7000 + i).to_string()), metadata: None, raw_metadata: None } }
+                } else {
+                    Op::Write(WriteSpec::simple(Some(0), i % 3))
+                };
+                steps.push(Step { op, fl });
+                // i records are in the bucket now
+                if [255, 256, 257, 499, 500, 501, 511, 512, 513, 999, 1000, 1001, 1023, 1024, 1025, 1999, 2000, 2001, 2047, 2048, 2049, 4095, 4096, 4097, 4999, 5000, 5001, 8191, 8192, 8193, 9999, 10_000, 10_001].contains(&i) {
+                    steps.push(Step { op: Op::Meta { key: 0 }, fl: if i % 2 == 0 { Fl::Sync } else { Fl::Async } });
+                    steps.push(Step { op: Op::List, fl: if i % 2 == 1 { Fl::Sync } else { Fl::Async } });
+                }
+            }
+            out.push(Program { keys: qkeys, blobs: blobs.to_vec(), steps });
+        }
         if tier == Tier::Thorough {
             // length 5 over a 6-symbol sub-alphabet
             let sub: Vec<Step> = [0usize, 1, 4, 6, 7, 10].iter().map(|&i| al[i].clone()).collect();
@@ -254,7 +278,7 @@ impl Engine for C05 {
     }
     fn exhaustive_note(&self, tier: Tier) -> String {
         format!(
-            "all histories of length 1..={} over a 14-symbol alphabet (2 keys + 1 never-written key, 3 values, sync and async); block-boundary, index-neighbour and long single-key histories; 24 histories that grow a bucket past 1 MiB, delete or tombstone it and grow it again, observed at marked points only{}",
+            "all histories of length 1..={} over a 14-symbol alphabet (2 keys + 1 never-written key, 3 values, sync and async); block-boundary, index-neighbour and long single-key histories; 24 histories that grow a bucket past 1 MiB, delete or tombstone it and grow it again, observed at marked points only; 2 histories of thousands of small records on one key observed around round record counts{}",
             tier.pick(3, 4),
             tier.pick("", "; all length-5 histories over a 6-symbol sub-alphabet")
         )
